@@ -150,6 +150,63 @@ def consumer_stage_call_counts(ld, r, count):
     return fails
 
 
+def cycle_prefix_counts(ld, r, count):
+    """the first k examples of ds.cycle() (k within the first round) cost exactly what the first k examples of ds cost - also when ds has
+    no length (lazy filter, catch, unbatch, lazy apply above mapped stages): nothing is probed with a throw-away iterator"""
+    import itertools, warnings
+    fails = []
+    with warnings.catch_warnings():
+        warnings.simplefilter('ignore')
+        for _ in range(count):
+            n = r.randint(1, 7)
+            below = r.choice(['filter', 'catch', 'unbatch', 'lazyapply', 'map', 'filter_items'])
+
+            def build():
+                log = []
+                d = ld.new({f'key{i}': i for i in range(n)}).map(_Log('load', log))
+                if below in ('filter', 'filter_items'): d = d.filter(_KeepLog(log))
+                elif below == 'catch': d = d.catch()
+                elif below == 'unbatch': d = d.batch(2).unbatch()
+                elif below == 'lazyapply': d = d.apply(_ApplyLog(log), lazy=True)
+                return d, log
+            try:
+                d0, log0 = build()
+                whole = list(d0)
+                if not whole:
+                    continue                      # (cycling a pipeline that yields nothing never returns)
+                k = r.randint(1, len(whole))
+                res = []
+                for cyc in (False, True):
+                    d, log = build()
+                    t = d.cycle() if cyc else d
+                    if below == 'filter_items':
+                        t = t.items()
+                    del log[:]
+                    it = iter(t)
+                    made = list(log)
+                    got = list(itertools.islice(it, k))
+                    res.append((made, sorted(log), got))
+                if res[0] != res[1]:
+                    fails.append(f'cycle() above {below} over {n} mapped examples, first {k} results: (calls at iter(), calls, results) = {res[1]}; without cycle() {res[0]}'[:700])
+            except Exception as e:
+                fails.append(f'cycle() above {below} raised {type(e).__name__}: {e}'[:300])
+    return fails
+
+
+class _KeepLog:
+    def __init__(self, log): self.log = log
+    def __call__(self, x):
+        self.log.append(('keep', repr(x)))
+        return x % 3 != 0
+
+
+class _ApplyLog:
+    def __init__(self, log): self.log = log
+    def __call__(self, d):
+        self.log.append(('apply_fn', ''))
+        return d.map(_Log('inner', self.log))
+
+
 def run(tier):
     from .. import model_e, common
     res = model_b.run_b('C08', tier, want_prof=False)
@@ -166,6 +223,9 @@ def run(tier):
     for msg in consumer_stage_call_counts(common.import_impl(), common.rng_for('C08cons'), ncc)[:5]:
         res['failures'].append(dict(kind='program', summary=msg, config=dict(kind='consumer_counts')))
     res['coverage']['consumer_stage_count_cases'] = ncc
+    for msg in cycle_prefix_counts(common.import_impl(), common.rng_for('C08cyc'), ncc)[:5]:
+        res['failures'].append(dict(kind='program', summary=msg, config=dict(kind='cycle_prefix')))
+    res['coverage']['cycle_prefix_cases'] = ncc
     return res
 
 
